@@ -768,7 +768,7 @@ fn run(ctx: &mut Ctx) {
         }
     }
     // small documents: all histories
-    let n = ctx.scaled(t.pick(8_000, 80_000)) / ctx.nshards as u64 + 1;
+    let n = ctx.scaled(t.pick(8_000, 400_000)) / ctx.nshards as u64 + 1;
     for _ in 0..n {
         let d = gen_ns_doc(&mut r, 4);
         if !all_histories(ctx, &mut loc, d.as_bytes(), &mut r) {
@@ -777,7 +777,7 @@ fn run(ctx: &mut Ctx) {
     }
     ctx.exhaustive("for every pool document and every generated document with at most 4 elements: all 3^k continue/skip/read_text choices over its Start events x 3 read-kind patterns x expand-empty on/off");
     // larger documents: random histories
-    let n = ctx.scaled(t.pick(300_000, 3_000_000)) / ctx.nshards as u64 + 1;
+    let n = ctx.scaled(t.pick(300_000, 15_000_000)) / ctx.nshards as u64 + 1;
     for _ in 0..n {
         let sz = 4 + r.below(20);
         let d = gen_ns_doc(&mut r, sz);
